@@ -205,6 +205,12 @@ func (r *Reader) Read(a []byte) (n int, err error) {
 		err = io.EOF
 	}
 
+	if n == 0 && err == nil {
+		// the piece is not there (any more), make sure that we
+		// request it again and wait for it next time around.
+		r.requestedIndex = -1
+	}
+
 	if err != nil {
 		r.request(-1, -1)
 	}
